@@ -36,6 +36,7 @@ macro_rules! dispatch {
             "C02" => $f::<props::hist::C02>($($arg),*),
             "C03" => $f::<props::hist::C03>($($arg),*),
             "C04" => $f::<props::c04::C04>($($arg),*),
+            "C17" => $f::<props::c17::C17>($($arg),*),
             "C18" => $f::<props::c18::C18>($($arg),*),
             "C16" => $f::<props::c16::C16>($($arg),*),
             "C10" => $f::<props::c10::C10>($($arg),*),
